@@ -451,6 +451,12 @@ class VSeq(V):
         i = z3.Int("i!sub")
         return VSeq(self.elem, z3.Lambda([i], self.arr[i + lo]), ln)
 
+    def tail_from(self, k):
+        """self[k:] for a concrete k >= 0 (canonical term: the same call gives the same term)"""
+        if self.items is not None:
+            return VSeq.of(self.elem, self.items[k:])
+        return self.sub(z3.IntVal(k), z3.If(self.n >= k, self.n - k, 0))
+
     def set_at(self, i, x):
         return VSeq(self.elem, z3.Store(self.arr, i, x.t), self.n)
 
